@@ -221,7 +221,8 @@ pub enum Op {
     GetMetrics { store: StoreIx },
     Subscribe { store: StoreIx, sub: SubId },
     Unsubscribe { store: StoreIx, sub: SubId },
-    Iter { store: StoreIx, it: u32, consume: Consume },
+    /// create an iterator, signal `ready` (if any), then consume it on this thread
+    Iter { store: StoreIx, it: u32, consume: Consume, ready: Option<GateId> },
     AddReducer { store: StoreIx, comp: CompId },
     AddMiddleware { store: StoreIx, comp: CompId },
     Close { store: StoreIx },
